@@ -453,7 +453,6 @@ impl Document {
                         *start_count += n;
                         start_tok.span.end = child_tok.span.end;
                         remove_these.push_back(cursor);
-                        cursor += 1;
                     } else {
                         break;
                     };
